@@ -627,13 +627,21 @@ func Parts(mode string) func() []mc.Part {
 		}
 		// a history may contain a restart of the chain from its own exported genesis: open contracts must still
 		// expire, be claimable and be counted afterwards (closed ones are dropped by the export, by design)
+		// the restart is offered inside a block (the state as it is) and where it really happens, between two blocks
+		// (InitGenesis under the next block's height); outside C13 also with an initial height 51 above the export's:
+		// a contract whose expiration height falls into the gap is overdue on the new chain - no block has that
+		// height, so it stays open (claimable), and whatever happens its funds may leave escrow at most once
+		skip := int64(51)
+		if mode == "C13" {
+			skip = 0 // an overdue contract's queue entry is not "awaiting processing": outside the hygiene rules
+		}
 		ps = append(ps,
-			mc.ExplorePart("plain-restarting", mc.WithRestart(New(Variant{Name: "plain-restarting", Mode: mode}), "htlc"), 6, 8, false, rule),
-			mc.ExplorePart("cross-chain-restarting", mc.WithRestart(New(Variant{Name: "cross-chain-restarting", Mode: mode, Cross: true}), "htlc"), 5, 6, false, rule))
+			mc.ExplorePart("plain-restarting", mc.WithBoundaryRestart(New(Variant{Name: "plain-restarting", Mode: mode}), skip, "htlc"), 6, 8, false, rule),
+			mc.ExplorePart("cross-chain-restarting", mc.WithBoundaryRestart(New(Variant{Name: "cross-chain-restarting", Mode: mode, Cross: true}), skip, "htlc"), 5, 6, false, rule))
 		if mode == "C04" {
 			ps = append(ps, GenesisAssertionPart())
 		}
-		if mode == "C04" || mode == "C03" {
+		{
 			// governance removes an asset from the parameters and lists it again: its supply records must survive
 			ps = append(ps, mc.ExplorePart("cross-chain-relisting", New(Variant{Name: "cross-chain-relisting", Mode: mode, Cross: true, Relist: true}), 5, 6, false, rule))
 		}
